@@ -163,7 +163,7 @@ impl Property for C03 {
          oracle = exact partial evaluation of the raw polynomial + reference evaluator at s1 u s2; non-trivial = s1, s2 non-empty and a term mixing a fixed and a free variable; distinct = sha256(object, s1, s2, steps)"
     }
     fn required_labels(&self) -> Vec<String> {
-        ["level=function", "level=constraint", "level=removed-constraint", "level=instance", "removed-constraint", "dependency", "non-normalised", "two-step", "fixed-id-not-occurring", "regime=general", "regime=dyadic", "mixed-term", "big-sorted-function", "big-sorted-function-repeats-an-id", "fixed-variable-mentioned-again-and-fixed-again", "crowd-of-unused-variables", "fixed-set-names-a-dependent-variable"]
+        ["level=function", "level=constraint", "level=removed-constraint", "level=instance", "removed-constraint", "dependency", "non-normalised", "two-step", "fixed-id-not-occurring", "regime=general", "regime=dyadic", "mixed-term", "big-sorted-function", "big-sorted-function-repeats-an-id", "fixed-variable-mentioned-again-and-fixed-again", "crowd-of-unused-variables", "fixed-set-names-a-dependent-variable", "remainder-also-evaluated-as-sample-set"]
             .iter()
             .map(|s| s.to_string())
             .collect()
@@ -638,7 +638,23 @@ impl Property for C03 {
                 compare_solution("C03/instance/solution", &sol, &m2, &o).map_err(|mut f| {
                     f.message = ctxmsg(f.message);
                     f
-                })
+                })?;
+                // "evaluating the remainder" through the other evaluation entry point: a sample set with the one sample s2
+                let mut smp = v1::Samples::default();
+                smp.entries.push(crate::mk::samples_entry(s2.clone(), vec![7]));
+                match pe.evaluate_samples(&smp) {
+                    Err(e) => fail("C03/instance/remainder-rejected-as-sample", ctxmsg(format!("evaluate_samples of the partially evaluated instance failed although evaluate succeeded: {e:#}"))),
+                    Ok((ss, _)) => match ss.get(7) {
+                        Err(e) => fail("C03/instance/remainder-sample-missing", ctxmsg(format!("SampleSet::get(7): {e:#}"))),
+                        Ok(one) => {
+                            ctx.label("remainder-also-evaluated-as-sample-set");
+                            compare_solution("C03/instance/solution-as-sample", &one, &m2, &CmpOpts { decision_variables: None, check_used_ids: false, ..CmpOpts::default() }).map_err(|mut f| {
+                                f.message = ctxmsg(f.message);
+                                f
+                            })
+                        }
+                    },
+                }
             }
         }
     }
